@@ -223,6 +223,34 @@ def run(ctx, rep):
             sl = flow.backward_slice(OW, op_place(wt["args"][2])) if len(wt["args"]) > 2 and op_place(wt["args"][2]) else {"args": set()}
             rep.check("C20.a", "opendal/writes-the-content", 5 in sl["args"], where=where(OW, wb), what="the bytes handed to Operator::write derive from the `content` parameter")
     # ---- C20.b listing filters -----------------------------------------------------------------------
+    # the filter itself: Id::parse_some / <Id as FromStr>::from_str decode the WHOLE name - a name that merely starts with 64 hex
+    # digits (`<id>-tmp-`, `<id>.bak`, the leftover of an interrupted write) must not parse
+    PS = prog.find1(r"^rustic_core::id::Id::parse_some$")
+    FS = prog.find1(r"^<rustic_core::id::Id as std::str::FromStr>::from_str$")
+    TRANSP = re.compile(r"Deref>::deref$|AsRef<.*>>::as_ref$|Borrow<.*>>::borrow$|String::as_str$|convert::identity$")
+
+    def _verbatim_param(body, op, idx):
+        e = flow.expr_of(body, op)
+        d = 0
+        while isinstance(e, tuple) and d < 6:
+            if e[0] == "path" and isinstance(e[1], tuple) and e[1] == ("arg", idx) and not e[2] and not (len(e) > 3 and [x for x in e[3] if x]):
+                return True
+            if e[0] in ("ref", "deref") and len(e) > 1:
+                e = e[1]
+            elif e[0] == "call" and TRANSP.search(e[1]) and e[2]:
+                e = e[2][0]
+            else:
+                return False
+            d += 1
+        return False
+    pcalls = [(bb, t) for bb, t in PS.calls() if "callee" in t and re.search(r"str>::parse$|FromStr>::from_str$|Id::from_hex$|hex::decode_to_slice$", callee(t))]
+    okp = len(pcalls) >= 1 and all(_verbatim_param(PS, t["args"][0], 1) for _, t in pcalls)
+    rep.check("C20.b", "parse_some/whole-name", okp, where=PS.loc(), what="Id::parse_some parses the complete entry name (its parameter, unsliced)" if okp else
+              "Id::parse_some parses only a part of the entry name: a name that starts with 64 hex digits (`<id>-tmp-`, `<id>.bak`) is listed as the id")
+    dcalls = [(bb, t) for bb, t in FS.calls() if "callee" in t and re.search(r"hex::decode_to_slice$|FromHex>::from_hex$|hex::decode$", callee(t))]
+    okd = len(dcalls) >= 1 and all(_verbatim_param(FS, t["args"][0], 1) for _, t in dcalls)
+    rep.check("C20.b", "from_str/whole-string", okd, where=FS.loc(), what="<Id as FromStr>::from_str hex-decodes the complete string into the 32-byte id (decode_to_slice fails on any other length)" if okd else
+              "<Id as FromStr>::from_str decodes only a part of its argument: longer names parse as ids")
     for be, paths in (("local", [LB + "ReadBackend>::list", LB + "ReadBackend>::list_with_size"]),
                       ("opendal", ["<rustic_backend::opendal::OpenDALBackend as rustic_core::backend::ReadBackend>::list", "<rustic_backend::opendal::OpenDALBackend as rustic_core::backend::ReadBackend>::list_with_size"])):
         for p in paths:
